@@ -1332,12 +1332,17 @@ func (t *Tokenizer) readPunctuation() (models.Token, error) {
 				textEnd := commentEndIdx
 				if textEnd > 0 && t.input[textEnd-1] == '\n' {
 					textEnd--
+					// the line terminator of a CRLF text is not part of the comment either
+					if textEnd > commentStartIdx+2 && t.input[textEnd-1] == '\r' {
+						textEnd--
+					}
 				}
 				t.Comments = append(t.Comments, models.Comment{
-					Text:   string(t.input[commentStartIdx:textEnd]),
-					Style:  models.LineComment,
-					Start:  commentStartPos,
-					End:    t.toSQLPosition(t.pos),
+					Text:  string(t.input[commentStartIdx:textEnd]),
+					Style: models.LineComment,
+					Start: commentStartPos,
+					// the comment ends where its text ends, not on the next line
+					End:    t.toSQLPosition(Position{Index: textEnd}),
 					Inline: t.hasCodeBeforeOnLine(commentStartIdx),
 				})
 				// The comment is not a token: tell the caller to go on with the
